@@ -88,6 +88,29 @@ def native_run(wrapper, body, sanitize=True, timeout=60, includes=''):
         if mo: vals[mo.group(1)] = mo.group(2)
     return {'rc': p.returncode, 'out': p.stdout[-2000:], 'err': p.stderr[-1500:], 'vals': vals}
 
+def tsan_run(setup, call, nthreads=4, timeout=120):
+    """threads replay: NTHREADS threads execute `call` once each on the state built by `setup` (real library rebuilt with ThreadSanitizer);
+    returns {race: bool, report: str}.  TSan reports accesses not ordered by happens-before, so no particular interleaving is needed."""
+    sc = build.scratch(); lib = build.full_lib_so(sanitize='thread')
+    h = hashlib.md5((setup + call).encode()).hexdigest()[:10]
+    src = os.path.join(sc, 'tsan-%s.cpp' % h); exe = os.path.join(sc, 'tsan-%s' % h)
+    open(src, 'w').write('#include <thread>\n#include <vector>\n#include <cstdio>\n#include <GeographicLib/Geodesic.hpp>\n#include <GeographicLib/Rhumb.hpp>\n#include <GeographicLib/AuxLatitude.hpp>\n#include <GeographicLib/OSGB.hpp>\n'
+                         '#include <GeographicLib/GeodesicExact.hpp>\n#include <GeographicLib/MGRS.hpp>\n#include <GeographicLib/Geohash.hpp>\n#include <GeographicLib/UTMUPS.hpp>\nusing namespace GeographicLib;\n'
+                         'int main() {\n%s\n  std::vector<std::thread> th;\n  for (int t = 0; t < %d; ++t) th.emplace_back([&, t]() { %s });\n  for (auto& x : th) x.join();\n  return 0; }\n' % (setup, nthreads, call))
+    cmd = ['g++', '-std=gnu++17', '-O1', '-g', '-fsanitize=thread', '-pthread', '-DNDEBUG', '-w'] + build.incflags() + [src, lib, '-Wl,-rpath,' + os.path.dirname(lib), '-o', exe]
+    r = subprocess.run(cmd, capture_output=True, text=True)
+    if r.returncode: raise RuntimeError('tsan program did not compile: ' + r.stderr[-1500:])
+    try:
+        p = subprocess.run([exe], capture_output=True, text=True, timeout=timeout, env=dict(os.environ, TSAN_OPTIONS='halt_on_error=0 report_signal_unsafe=0'))
+    except subprocess.TimeoutExpired:
+        return {'race': None, 'report': 'timeout'}
+    race = 'WARNING: ThreadSanitizer: data race' in p.stderr
+    rep = ''
+    if race:
+        lines = p.stderr.split('\n'); i = next(k for k, l in enumerate(lines) if 'data race' in l)
+        rep = ' | '.join(l.strip() for l in lines[i:i + 8] if l.strip())[:500]
+    return {'race': race, 'report': rep}
+
 def chex(x):
     """python float -> C++ expression with the exact value"""
     import math
